@@ -48,13 +48,16 @@ def run_contract_search(key, tier, seed):
     c = CONTRACTS[key]
     rng = random.Random(("%s|%s" % (seed, key)))
     out = {"key": key, "evaluations": 0, "accepted": 0, "nontrivial": 0, "failures": [], "status": "ok", "samples": []}
-    if c.gen is None:
+    gen = c.gen
+    if tier == "large":
+        gen = getattr(c, "gen_large", None)
+    if gen is None:
         out["status"] = "no-generator"
         return out
     t0 = time.time()
-    limit_s = 6.0 if tier == "quick" else 60.0
+    limit_s = {"quick": 6.0, "large": 150.0}.get(tier, 60.0)
     seen = set()
-    for kwargs in c.gen(rng, tier):
+    for kwargs in gen(rng, tier):
         out["evaluations"] += 1
         o = rtc.run_contract(c, kwargs)
         if o.status == "pre-false":
@@ -249,6 +252,22 @@ def cmd_check(pid, tier, seed, opts):
             r2 = verify(key, timeout_ms=60000)
             if r2.get("status") == "ok":
                 A[key] = r2
+    # escalation: functions engine A could not decide get a large-input search (their usual cause is a restructured body,
+    # e.g. a fast path for large arrays, which the small quick domain cannot reach)
+    esc = []
+    for key, r in A.items():
+        c0 = CONTRACTS.get(key)
+        if c0 is None or getattr(c0, "gen_large", None) is None or (key in C and C[key].get("failures")):
+            continue
+        if r.get("status") in ("stale", "outside-subset") or any(o["result"] == "unknown" for o in r.get("obligations", [])):
+            esc.append(key)
+    if esc:
+        with mp.get_context("fork").Pool(min(nproc, len(esc))) as pool2:
+            for (kind, key, r) in pool2.map(_task, [("C", k, "large", seed, opts) for k in esc]):
+                if r.get("failures"):
+                    C[key] = r
+                elif key in C:
+                    C[key]["escalated"] = {"evaluations": r.get("accepted", 0), "wall_s": r.get("wall_s")}
     obligations, discharged, samples, undecided, errors = 0, 0, [], [], []
     funcs, trusted_funcs, bounded_only = [], [], []
     failed_obls = []
